@@ -321,6 +321,28 @@ class Run:
         # known findings: print one line each (only when they actually occur)
         for key, case, detail in listed:
             print(f"KNOWN-FINDING: property={self.pid} {key}: {known[key].get('what', '')}")
+        # listed findings that this tier's enumeration did not pass through: re-execute their committed replay
+        # files, so that every listed finding is looked at on every run
+        observed = {k for k, _, _ in listed}
+        replayed = []
+        for key, entry in sorted(known.items()):
+            if key in observed or not entry.get("replay"):
+                continue
+            try:
+                import importlib
+
+                with open(os.path.join(VERIF, entry["replay"])) as f:
+                    case = json.load(f)["case"]
+                seed_everything(self.seed)
+                got = [k for k, _ in importlib.import_module(self.module).replay(case)]
+            except Exception as e:
+                print(f"NOTE property={self.pid} replay file of a listed finding could not be executed ({type(e).__name__}): {key}")
+                continue
+            if key in got:
+                print(f"KNOWN-FINDING: property={self.pid} {key}: {entry.get('what', '')}")
+                replayed.append(key)
+            else:
+                print(f"NOTE property={self.pid} listed finding is not reproduced by its replay file (repaired?): {key}")
         confirmed = 0
         for key, case, detail in new:
             path = self._write_replay(key, case, detail)
@@ -353,6 +375,7 @@ class Run:
             k: len(v) for k, v in sorted(t.outcomes.items())
         }
         cov["known_findings_observed"] = sorted(k for k, _, _ in listed)
+        cov["known_findings_reproduced_from_replay_files"] = sorted(replayed)
         cov["new_violation_keys"] = sorted(k for k, _, _ in new)
         ev = {
             "property_id": self.pid,
